@@ -596,7 +596,7 @@ impl Operands {
             o.dts.extend_from_slice(&[999_999, -999_999, 7 * US_DAY, -7 * US_DAY, limit_dt - 1, -(limit_dt - 1)]);
             o.f64s.extend_from_slice(&[0.25, -0.25, 365.25, -365.25, 1e-6, 7.0]);
             for k in 0..2u64 {
-                o.dts.push((splitmix(seed ^ (0x0BE7 + k)) % (2 * limit_dt as u64)) as i64 - limit_dt);
+                o.dts.push(((splitmix(seed ^ (0x0BE7 + k)) % (2 * limit_dt as u64)) as i128 - limit_dt as i128) as i64);
                 o.i32s.push(splitmix(seed ^ (0x0BE9 + k)) as i32 % 4_000_000);
             }
         }
